@@ -54,10 +54,9 @@ type codecT struct {
 	Canon    func(v any) string // canonical value rendering for equality
 	Seeds    func() [][]byte    // genuine encodings (bytes -> value -> bytes must be the identity)
 	// SynthIdentityOnly: the encoding of every synthetic value is itself decoded and re-encoded
-	// (bytes -> value -> bytes), whatever its length, but its mutants are not explored unless
-	// VERIF_C14_BEACON_MUTANTS=1 (see c14_beacon_forks.go: on the unchanged repository that pass
-	// reports two genuine defect families, which were handed over instead of being extended);
-	// with the switch on, encodings up to MutCap bytes get the mutant pass in the quick tier.
+	// (bytes -> value -> bytes), whatever its length, and encodings
+	// up to MutCap bytes also get the mutant pass in the quick tier (all of them in the thorough
+	// tier); see c14BeaconMutants in c14_beacon_forks.go.
 	SynthIdentityOnly bool
 	MutCap            int
 	// DescClass: the first word of every value description names the value's input class
